@@ -77,6 +77,58 @@ def check(prog, res, tier):
                                     f'blocking options reach the base constructor', func_where(mfi),
                            f'{callee}(..., encoding=self.encoding, iso_config=self.iso_config)', chk, rule=f'C06.a.{ci.name}'))
 
+    # ---- C06.c every write encodes the message it is given, as it is at that moment
+    wci = prog.cls('mciipm.IpmWriter')
+    wmfi = wci.lookup('write')[1]
+
+    def dumps_cap(it, fi, args, kwargs, node, self_obj):
+        calls = it.user.setdefault('dumps_calls', [])
+        rec = it.sym_bytes(f'encoded{len(calls) + 1}', lo=1, hi=6000)
+        calls.append((it.user.get('phase'), args[0] if args else kwargs.get('obj'), rec))
+        return rec
+
+    def vbs_write_cap(it, fi, args, kwargs, node, self_obj):
+        it.user.setdefault('written', []).append((it.user.get('phase'), args[0] if args else kwargs.get('record')))
+        return ConstV(None)
+
+    def entry_two(it):
+        f = it.new_file('f')
+        obj = it.instantiate(wci, [f], {'encoding': codec(it), 'iso_config': common.generic_bit_config(it),
+                                        'blocked': SymV('blocked', 'bool')}, None)
+        msg = DictV(open_=True, desc='message')
+        it.user['msg'] = msg
+        it.user['phase'] = 1
+        it.call_function(wmfi, [msg], {}, self_obj=obj)
+        # the caller updates the same dict object and writes it again
+        msg.items['DE4'] = it.sym_str('new amount', lo=12, hi=12, charset='digits')
+        it.user['phase'] = 2
+        return it.call_function(wmfi, [msg], {}, self_obj=obj)
+    runs2 = Runs(prog, entry_two, summaries={'iso8583.dumps': dumps_cap, 'mciipm.VbsWriter.write': vbs_write_cap}, res=res)
+
+    def chk_two(p, mode):
+        if p.outcome != 'return':
+            return []
+        u = p.interp.user
+        fails = []
+        for phase in (1, 2):
+            wr = [r for ph, r in u.get('written', []) if ph == phase]
+            enc = [(o, r) for ph, o, r in u.get('dumps_calls', []) if ph == phase]
+            if len(wr) != 1:
+                fails.append(definite(f'write number {phase} hands {len(wr)} records to the VBS writer'))
+                continue
+            fresh = [r for o, r in enc if o is u['msg']]
+            if not any(wr[0] is r for r in fresh):
+                stale = any(wr[0] is r for ph, o, r in u.get('dumps_calls', []) if ph != phase)
+                compared = any(k == 'eq' and (d.get('a') is u['msg'] or d.get('b') is u['msg']) for k, t, d in p.facts)
+                desc = (f'write number {phase} of a message does not write the record encoded from that message during that call'
+                        + (' - it re-uses the record encoded by an earlier write although the dict was updated in between'
+                           if stale else ''))
+                fails.append(soft(desc) if compared else definite(desc))
+        return fails
+    res.add(runs2.judge('C06.c', 'each IpmWriter.write encodes the message it is given, as it is at the time of the call (the same '
+                                 'dict object updated and written twice gives two encodings)', func_where(wmfi),
+                        'record = iso8583.dumps(obj, ...); super().write(record)', chk_two, rule='C06.c.fresh-encoding'))
+
     # ---- C06.b no shared mutable state
     du = DecodeUnits(prog, res)
     rr = ReaderRuns(prog, res, du)
@@ -129,7 +181,10 @@ def check(prog, res, tier):
     try:
         from .c18 import make_reader as make_param_reader, CLS as PCLS
         pci = prog.cls(PCLS)
-        gfi = pci.lookup('_get_param_field')[1]
+        gl = pci.lookup('_get_param_field')
+        if gl is None:
+            raise AnalysisError('no _get_param_field helper (covered through __next__ elsewhere)')
+        gfi = gl[1]
 
         def entry_pr(it):
             obj = make_param_reader(it, prog, SymV('expanded', 'bool') and it.choose(2, 'expanded') == 1)
